@@ -44,13 +44,13 @@ ASSUMPTIONS = [
     "SystemExit and KeyboardInterrupt raised by doctest code are meant to propagate out of run(); the state must still be restored",
     "event loops that existed before the call are not the run's business (only loops created during the call are inspected)",
 ]
-OUTCOMES = ['pass', 'mismatch', 'exception', 'expected_exc', 'exit_test', 'all_skipped', 'import_failure', 'compile_error',
+OUTCOMES = ['pass', 'mismatch', 'exception', 'expected_exc', 'exit_test', 'all_skipped', 'import_failure', 'import_system_exit', 'compile_error',
             'bad_directive', 'system_exit', 'keyboard_interrupt']
 FEATURES = ['prints', 'replace_stdout', 'simplefilter', 'filterwarnings', 'showwarning', 'warn', 'await', 'sleep', 'pending_task',
-            'stdout_in_func', 'close_stdout', 'close_stdout_with']
+            'stdout_in_func', 'close_stdout', 'close_stdout_with', 'requires_module', 'requires_missing_module']
 
 IMPORT_KINDS = ['clean', 'raises', 'syntax_error', 'sibling', 'sibling_raises', 'deep', 'init_raises', 'edits_path', 'edits_path_raises',
-                'edits_path_front', 'edits_path_front_raises']
+                'edits_path_front', 'edits_path_front_raises', 'system_exit', 'keyboard_interrupt']
 
 FEATURE_LINES = {
     'prints': [">>> print('some output')"],
@@ -65,6 +65,9 @@ FEATURE_LINES = {
                      '>>> await _leave()'],
     # the doctest closes the stream it finds installed as sys.stdout (xdoctest's capture stream): whatever run() does about
     # that, the process must get its own sys.stdout back
+    # a module is looked up by name while the doctest runs
+    'requires_module': ['>>> # xdoctest: +REQUIRES(module:os)', ">>> print('requires ok')"],
+    'requires_missing_module': [">>> print('maybe')  # xdoctest: +REQUIRES(module:vp_no_such_module_zz)"],
     'close_stdout': ['>>> import sys', '>>> sys.stdout.close()'],
     'close_stdout_with': ['>>> import sys', '>>> with sys.stdout:', "...     print('closing on exit')"],
     'stdout_in_func': ['>>> import sys, io', '>>> def _swap():', '...     sys.stdout = io.StringIO()', "...     print('lost')",
@@ -207,12 +210,14 @@ def check_case(case, ctx):
     oc = case['outcome']
     name = sandbox.unique_name('vpc12')
     with sandbox.scratch('c12') as d, sandbox.quiet():
-        use_module = case.get('from_module') or oc == 'import_failure'
+        use_module = case.get('from_module') or oc in ('import_failure', 'import_system_exit')
         if use_module:
             path = os.path.join(d, name + '.py')
             body = ['def f():', '    """', '    Example:'] + ['        ' + ln for ln in doc] + ['    """', '']
             if oc == 'import_failure':
                 body = ["raise RuntimeError('vp: import of this module fails')", ''] + body
+            if oc == 'import_system_exit':
+                body = ['import sys', 'sys.exit(4)', ''] + body
             with open(path, 'w') as f:
                 f.write('\n'.join(body) + '\n')
             exs = list(core.parse_doctestables(path, style='google', analysis='static'))
@@ -222,6 +227,9 @@ def check_case(case, ctx):
             raise engine.HarnessError('generated doctest was not collected: {}'.format(doc))
         ex = exs[0]
         ex.mode = case.get('mode', 'native')
+        empty_entry = bool(case.get('path_has_empty_entry'))
+        if empty_entry:
+            sys.path.insert(0, '')        # as under `python -c`, `python -` and the REPL
         before = snapshot()
         raised = None
         try:
@@ -230,6 +238,8 @@ def check_case(case, ctx):
             raised = e
         problems = compare(before, 'run')
         restore(before)
+        if empty_entry:
+            sys.path.pop(0)
         sandbox.purge_modules([name])
     if ctx is not None:
         ctx.count()
@@ -280,6 +290,10 @@ def check_import_case(case, ctx):
             target = top + '.py'
         elif kind == 'syntax_error':
             files[top + '.py'] = 'def broken(:\n'
+            target = top + '.py'
+        elif kind in ('system_exit', 'keyboard_interrupt'):
+            # the import ends with an exception that is not an Exception (sys.exit() at module level, Ctrl-C)
+            files[top + '.py'] = 'X = 1\nraise {}\n'.format('SystemExit(3)' if kind == 'system_exit' else 'KeyboardInterrupt()')
             target = top + '.py'
         elif kind == 'sibling':
             files[top + '/__init__.py'] = ''
@@ -333,7 +347,8 @@ def check_import_case(case, ctx):
         ctx.tag('import:' + kind, 'index:{}'.format(index))
         if kind not in ('clean',):
             ctx.nontriv(('import', kind, index), {'import_kind': kind, 'index': index, 'raised': repr(raised)[:200]})
-    expect_raise = kind in ('raises', 'syntax_error', 'sibling_raises', 'init_raises', 'edits_path_raises', 'edits_path_front_raises')
+    expect_raise = kind in ('raises', 'syntax_error', 'sibling_raises', 'init_raises', 'edits_path_raises', 'edits_path_front_raises',
+                            'system_exit', 'keyboard_interrupt')
     if expect_raise != (raised is not None):
         raise Violation('import_outcome:' + kind, 'import of a {} module: raised={!r}'.format(kind, raised))
     if kind.startswith('edits_path') and root in after_path:
@@ -352,7 +367,8 @@ def case_strategy(D):
     feats = D.shuffled(feats)
     return {'outcome': oc, 'position': D.choice(['last', 'first', 'middle']), 'fillers': D.int(0, 3),
             'features': feats, 'split': D.bool(), 'on_error': D.choice(['return', 'raise']),
-            'mode': D.choice(['native', 'pytest']), 'verbose': D.choice([0, 1, 2, 3]), 'from_module': D.chance(1, 4)}
+            'mode': D.choice(['native', 'pytest']), 'verbose': D.choice([0, 1, 2, 3]), 'from_module': D.chance(1, 4),
+            'path_has_empty_entry': D.chance(1, 3)}
 
 
 @composite
@@ -381,7 +397,8 @@ def product(ctx, shard, nshards):
                             if n % nshards != shard:
                                 continue
                             case = {'outcome': oc, 'position': 'last', 'fillers': 1, 'features': [f] if f else [], 'split': split,
-                                    'on_error': on_error, 'mode': mode, 'verbose': verbose, 'from_module': False}
+                                    'on_error': on_error, 'mode': mode, 'verbose': verbose, 'from_module': False,
+                                    'path_has_empty_entry': bool(n % 2)}
                             ctx.guard(check_case, case)
     if shard == 0:
         ctx.exhaustive.append('outcome (11) x single feature (11) x on_error (2) x mode (2) x verbosity {0,2} x split (2)')
